@@ -599,7 +599,7 @@ class Chain:
 # ------------------------------------------------------------------ scenarios
 def gen_case(rng, kind=None):
     """ops: list of (time_units, op, payload), sorted by time."""
-    kinds = ["plain", "self", "retry", "retry2", "waitretry", "wait", "waitresp", "crash", "boundary", "zero", "yield", "startup", "burst", "latency"]
+    kinds = ["plain", "self", "retry", "retry2", "waitretry", "waitfail", "wait", "waitresp", "crash", "boundary", "zero", "yield", "startup", "burst", "latency"]
     kind = kind or rng.choice(kinds)
     tau = rng.choice([8, 16, 32, 64, 96])
     y = 0
@@ -637,7 +637,8 @@ def gen_case(rng, kind=None):
         ops.append((0, "policy", POLICY_delay / U))
         ops.append((t, "send", plain_ev(fail=True, dur=rng.choice([0, 4]) / U)))
         t += POLICY_delay + gap() + 2 * tau
-        ops.append((t, "send", plain_ev(fin=True)))
+        if rng.random() < 0.5:       # (otherwise the run is left alone after its retry: it must go idle and be released)
+            ops.append((t, "send", plain_ev(fin=True)))
     elif kind == "retry2":
         # two failing inputs whose retries are pending at the same time with different remaining delays: when the
         # first retry has fired and finished, the second one is still waiting for longer than the idle timeout
@@ -657,6 +658,16 @@ def gen_case(rng, kind=None):
         t += T + rng.choice([2, tau // 2 + 1, 2 * tau + 5])
         ops.append((t, "send", plain_ev(fail=True, dur=0.0)))
         t += 3 * POLICY_delay + 4 * tau + 40
+        ops.append((t, "send", plain_ev(fin=True)))
+    elif kind == "waitfail":
+        # the run announces idle while a step waits with a timeout SHORTER than the idle timeout; the timeout wakes the
+        # run by itself, the step then fails and its retry waits out a delay that ends after the first idle period
+        # would have run out
+        T = rng.choice([max(1, tau // 4), max(1, tau // 2)])
+        POLICY_delay = rng.choice([tau, tau + 8, 2 * tau])
+        ops.append((0, "policy", POLICY_delay / U))
+        ops.append((t, "send", plain_ev(wait=T / U, fail=True, dur=0.0)))
+        t += T + POLICY_delay + 4 * tau + 40
         ops.append((t, "send", plain_ev(fin=True)))
     elif kind == "wait":
         T = rng.choice([tau // 2 or 1, tau, tau + 8, 3 * tau])
@@ -872,6 +883,18 @@ def analyze(case, rec, res, ref=None):
                 issue("C26", None, "a second resumer (%s after %s) called workflow.run for a run that is in memory: %s"
                       % (e["by"], owners, (e["error"] or "")[:80]))
 
+    def on_time(rel):
+        """the release follows an idle mark by at least idle_timeout with nothing happening in between (the only way the
+        unchanged code releases a run); anything else is a release of a run that was not idle for idle_timeout"""
+        k = log.index(rel)
+        for j in range(k - 1, -1, -1):
+            x = log[j]
+            if x["kind"] == "idle-mark":
+                return rel["t"] >= x["idle_since"] + tau
+            if x["kind"] in ("sender-begin", "body") or (x["kind"] == "tick" and x.get("type") != "idle_check"):
+                return False
+        return False
+
     # ---- C26 / C14: what a release drops
     for e in releases:
         if e["busy"] or e["bodies"] or e["retries"]:
@@ -884,7 +907,10 @@ def analyze(case, rec, res, ref=None):
             count("release_with_mail")
             issue("C26", "C26/release-drops-undelivered-event",
                   "run released at t=%d with %r still in its receive queue" % (e["t"], e["mail"]))
-        if e["sched"]:
+        if e["sched"] and not on_time(e):
+            issue("C26", None, "run released at t=%d, before it had been idle for idle_timeout=%d, while %d waiter timeouts "
+                  "were scheduled" % (e["t"], tau, e["sched"]))
+        elif e["sched"]:
             count("release_with_waiter_timeout")
             issue("C26", "C26/release-drops-pending-waiter-timeout",
                   "run released at t=%d while %d waiter timeouts were scheduled" % (e["t"], e["sched"]))
@@ -968,6 +994,18 @@ def analyze(case, rec, res, ref=None):
             # a release: not in memory any more, still marked idle
             if not (o[1] == 0 and o[2] == 1):
                 issue("C36", None, "after the release the run has %d live loops / idle mark %d" % (o[1], o[2]))
+            if len(o) > 8 and o[8] > 0:
+                issue("C14", None, "the run was released from memory (action %d of the recorded trace) while %d retries were "
+                      "waiting out their delay" % (k, o[8]))
+
+    # ---- C36: at the end of the scenario (a long quiet stretch) a live run with nothing to do must have been marked idle
+    # (and hence released): in memory + not marked idle + nothing busy / queued / scheduled is a run that is never released
+    if rec.trace and not rec.unsupported:
+        last = rec.trace[-1][1]
+        if len(last) >= 9 and last[0] == 1 and last[2] == 0 and last[3] == 1 and all(last[k] == 0 for k in (5, 6, 7, 8)):
+            issue("C36", None, "at the end of the scenario (t=%d, idle_timeout=%d) the run is still in memory, has nothing busy, queued "
+                  "or scheduled, and was never marked idle after its last activity: it will never be released" % (case["horizon"], tau))
+        count("final_states_checked")
 
     # ---- C36: reload is transparent (same outcome as the never-released reference run)
     if ref is not None and not crashes:
@@ -1030,6 +1068,11 @@ def analyze(case, rec, res, ref=None):
                     issue("C14", None, "waiter timeout of input %d due at t=%d fired at t=%d" % (e["i"], due, hit[0]["t"]))
             elif t_fin is not None and t_fin <= due:
                 count("wait_but_run_finished_first")
+            elif any(x["kind"] == "release" and not on_time(x) for x in between):
+                rel = next(x for x in between if x["kind"] == "release" and not on_time(x))
+                issue("C14", None, "wait_for_event(timeout=%d) of input %d registered at t=%d: the run was released at t=%d although "
+                      "it had not been idle for idle_timeout=%d; TimeoutError never delivered"
+                      % (wait_of.get(e["i"], 0), e["i"], e["t"], rel["t"], tau))
             elif any(x["kind"] == "release" for x in between):
                 count("waiter_timeout_lost_on_release")
                 issue("C14", "C14/waiter-timeout-lost-on-release",
@@ -1052,7 +1095,7 @@ def run_suite(ctx, n, props, with_reference=0.35):
     conform value, issues (restricted to `props`)."""
     import core
     rng = random.Random(ctx.seed * 7919 + 11)
-    kinds = ["plain", "self", "retry", "retry2", "waitretry", "wait", "waitresp", "crash", "boundary", "zero", "yield", "startup", "burst", "latency"]
+    kinds = ["plain", "self", "retry", "retry2", "waitretry", "waitfail", "wait", "waitresp", "crash", "boundary", "zero", "yield", "startup", "burst", "latency"]
     out, exprs, total = [], [], {}
     corpus = corpus_cases()
     for k in range(len(corpus) + n):
